@@ -454,3 +454,68 @@ def scene_state(sc, letter, seed, t):
     if rod is not None:
         q[rod.my_qDOF] = rod_state(rod, letter, seed)
     return q
+
+
+# ------------------------------------------------------------------------------------------------
+# shared check helpers (C07, C08)
+# ------------------------------------------------------------------------------------------------
+class LibFail(Exception):
+    def __init__(self, site, exc):
+        self.site = site
+        self.exc = exc
+
+
+def lib(site, fn, *a, **k):
+    """library call whose failure is a classified failure of the case"""
+    try:
+        return fn(*a, **k)
+    except Exception as e:  # noqa
+        if type(e).__name__ == "CaseTimeout":  # the runner's per-case alarm (runner runs as __main__)
+            raise
+        raise LibFail(site, e)
+
+
+def libfail_record(e):
+    import traceback
+
+    tb = traceback.extract_tb(e.exc.__traceback__)
+    where = ""
+    for fr in tb:
+        if "/cardillo/" in fr.filename:
+            where = f"{fr.filename.split('/cardillo/')[-1]}:{fr.name}"
+    return {"site": f"{e.site} raises", "msg": f"{type(e.exc).__name__}: {e.exc} (in {where})",
+            "data": {"exc": type(e.exc).__name__, "where": where}}
+
+
+class Acc:
+    def __init__(self):
+        self.fails = []
+        self.evals = 0
+        self.nontrivial = False
+        self.stats = {}
+        self.excluded = 0
+        self._sites = set()
+
+    def stat_max(self, key, v):
+        if v == v:
+            self.stats[key] = max(self.stats.get(key, 0.0), float(v))
+
+    def fail(self, site, msg, data):
+        if site in self._sites:
+            return
+        self._sites.add(site)
+        self.fails.append({"site": site, "msg": msg, "data": data})
+
+    def result(self, **kw):
+        self.stats["n_illcond"] = self.excluded
+        r = {"fails": self.fails, "nontrivial": self.nontrivial, "evals": self.evals, "stats": self.stats}
+        r.update(kw)
+        return r
+
+
+def check_manifold(sc, t, q):
+    g = sc.system.g(t, q)
+    if g.size and np.max(np.abs(g)) > 1e-10:
+        raise RuntimeError(f"harness: state not on the joint manifold, |g|={np.max(np.abs(g))}")
+
+
